@@ -6,6 +6,7 @@ var verifHarnesses = map[string]func(){
 	"HarnessSmoke2": HarnessSmoke2,
 	"HarnessC01a":   HarnessC01a,
 	"HarnessC04a":   HarnessC04a,
+	"HarnessC02a":   HarnessC02a,
 	"HarnessC05a":   HarnessC05a,
 	"HarnessC08a":   HarnessC08a,
 	"HarnessC13a":   HarnessC13a,
